@@ -92,6 +92,7 @@ class AsyncIOClient(ABC):
             build_network_map = build_network_map)
         self.encoder = NMEA2000Encoder()
         self.lock = asyncio.Lock()
+        self._send_lock = asyncio.Lock()  # one message at a time on the link
         
         # Setup logging
         self.logger = logging.getLogger(__name__)
@@ -251,10 +252,13 @@ class AsyncIOClient(ABC):
         try:
             msgs = self._encode_impl(nmea2000Message)
             assert self.writer is not None
-            for msg in msgs:
-                self.writer.write(msg)
-                await self.writer.drain()
-                self.logger.debug(f"Sent: {msg.hex()}")
+            # drain() suspends under back-pressure: without the lock the frames of two multi-frame
+            # messages sent concurrently would interleave on the link
+            async with self._send_lock:
+                for msg in msgs:
+                    self.writer.write(msg)
+                    await self.writer.drain()
+                    self.logger.debug(f"Sent: {msg.hex()}")
 
         except ValueError as ve:
                 self.logger.warning(f"Failed to encode message. Error {ve}")
